@@ -104,7 +104,7 @@ func (g *liveGateway) write(p knxnet.ServicePackable) {
 
 func (g *liveGateway) handle(frame []byte) {
 	var svc knxnet.Service
-	if _, err := knxnet.Unpack(frame, &svc); err != nil {
+	if _, err := oracleUnpack(frame, &svc); err != nil {
 		return
 	}
 	proto := knxnet.UDP4
